@@ -58,6 +58,11 @@ func (fv *FuncVC) globalAddr(g *ssa.Global) Term {
 	if !fv.declared[name] {
 		t := fv.declare(name, SInt)
 		fv.assumeGlobal(lt(intLit(0), t))
+		// package-level variables exist before any call: below the entry allocation watermark
+		if fv.entry != nil {
+			gsz := fv.TE.Sizeof(g.Type().Underlying().(*types.Pointer).Elem())
+			fv.assumeGlobal(le(add(t, intLit(max64(gsz, 1))), fv.ghostVal(fv.entry, "$brk")))
+		}
 		fv.globalFacts(g, t)
 	}
 	return Term{S: name, Sort: SInt, T: g.Type()}
